@@ -132,7 +132,9 @@ fn check_write(ctx: &mut Ctx, s: &WriteScn) -> Option<String> {
     match &act {
         Actual::Ok(_) => {
             let want = format!("stdout:{}", String::from_utf8_lossy(&s.text));
-            if msgs.len() != 1 || msgs[0] != want {
+            // a zero-length write has nothing to emit: no message at all is as good as one empty message
+            let empty_ok = s.text.is_empty() && msgs.is_empty();
+            if !empty_ok && (msgs.len() != 1 || msgs[0] != want) {
                 verdict = Some(format!("expected exactly one message {:?}, got {:?}", want.chars().take(60).collect::<String>(), msgs.iter().map(|m| m.chars().take(60).collect::<String>()).collect::<Vec<_>>()));
             } else if cpu.vh_pc() != s.pc + 2 {
                 verdict = Some(format!("execution continues at {:06x}, the following instruction is at {:06x}", cpu.vh_pc(), s.pc + 2));
@@ -426,7 +428,7 @@ fn c14_units(tier: Tier) -> Vec<Unit> {
                     let act = ctx.execute(&c);
                     ctx.st.cases += 1;
                     ctx.st.nontrivial += 1;
-                    if id == 104 {
+                    if id == 104 && !text.is_empty() {
                         expected_msgs.push(format!("stdout:{}", text));
                     }
                     let wl = ctx.wlog_all();
@@ -440,7 +442,7 @@ fn c14_units(tier: Tier) -> Vec<Unit> {
                     }
                     pc += 2;
                 }
-                let msgs = drain();
+                let msgs: Vec<String> = drain().into_iter().filter(|m| m != "stdout:").collect();
                 if verdict.is_none() && msgs != expected_msgs {
                     verdict = Some(format!("sequence {:?}: messages {:?}, expected {:?}", seq, msgs, expected_msgs));
                 }
@@ -462,7 +464,7 @@ pub fn c14(tier: Tier, _seed: u64) -> Prop {
         assumptions: vec![
             "pointers (ER1, buffer address) have a zero upper byte; contents are valid UTF-8, as the quantifier says".into(),
             "set_handler may keep private bookkeeping in memory for vectors 1-63 (the property only fixes where a later interrupt enters); vectors outside 1-63 must change nothing".into(),
-            "a zero-length write still produces one (empty) stdout: message".into(),
+            "a zero-length write may produce one empty stdout: message or none".into(),
         ],
         units: c14_units(tier),
         extra: crate::hv::shard::no_extra(),
